@@ -615,8 +615,8 @@ static void sched_point_ex(bool is_spin) {
     // nobody changed shared state for a very long time although somebody was always scheduled
     int alive = 0;
     for (int t = 0; t < MAXT; ++t)
-      if (G.thr[t].state == T_RUNNABLE) alive++;
-    if (alive >= 1) {
+      if (G.thr[t].state != T_NONE && G.thr[t].state != T_FINISHED) alive++;
+    if (alive >= 2) { // a single thread is covered by the per-operation step cap (hang)
       bool all_spin = true;
       for (int t = 0; t < MAXT; ++t)
         if (runnable(t) && !spinning(t)) all_spin = false;
